@@ -66,6 +66,53 @@ def present(frame, how, rng):
     return f
 
 
+def record_map_phase(b, n):
+    """transform() and >> applied directly to a caller's frame through a record map (cdata): the frame presented with
+    every index flavour must come back unchanged, and a second application must give the same table"""
+    from vf.checks import c17
+    from vf.gen import records as RG
+    from vf.compare import frames_match
+
+    for _ in range(n):
+        rng = b.rng
+        spec = RG.gen_spec(rng)
+        rows = RG.gen_rowrecs(rng, spec)
+        direction = rng.choice(["rows->blocks", "blocks->rows"])
+        try:
+            if direction == "rows->blocks":
+                m = c17.rm(blocks_out=spec)
+                X = RG.to_frame(rows, RG.row_columns(spec))
+            else:
+                m = c17.rm(blocks_in=spec)
+                X = RG.to_frame(RG.ref_unpivot(rows, spec), RG.block_columns(spec))
+        except Exception:
+            b.count("record_map", "spec-rejected")
+            continue
+        how = rng.choice(["default", "shuffled", "dup-index", "str-index", "desc-range", "named-index"])
+        Xc = present(X, how, rng)
+        snap = c17.snapshot(Xc)
+        entry = rng.choice(["transform", "rshift"])
+        b.evaluation()
+        try:
+            r1 = m.transform(Xc) if entry == "transform" else (Xc >> m)
+            ch = c17.changed(snap, Xc)
+            r2 = m.transform(Xc) if entry == "transform" else (Xc >> m)
+        except Exception as ex:
+            b.count("record_map", "raised:" + type(ex).__name__)
+            continue
+        b.count("record_map", entry + ":" + how)
+        case = {"spec": spec, "rows": rows, "direction": direction, "presentation": how, "entry": entry}
+        if ch:
+            b.violation("input-modified", f"record map {entry} ({direction}) changed the caller's frame presented as {how}: {ch}",
+                        case=case)
+            continue
+        mm = frames_match(r1, r2)
+        if mm:
+            b.violation("not-repeatable", f"record map {entry} ({direction}) applied twice: {mm}", case=case)
+            continue
+        b.sig(f"record-map|{direction}|{how}|{entry}")
+
+
 def run_batch(seed, batch, tier):
     import data_algebra
     import polars as pl
@@ -146,6 +193,7 @@ def run_batch(seed, batch, tier):
                 if any(o in ("extend", "project", "natural_join", "concat_rows") for o in seq):
                     b.sig(">".join(seq) + "|" + how + "|" + engine + "|" + entry)
                 b.sample({"pipeline": diff.describe(case), "presentation": how, "engine": engine, "entry": entry}, limit=1)
+    record_map_phase(b, max(20, (N[tier] // NB[tier]) // 4))
     b.counters["generator"] = gl
     b.counters["monitor_calls"] = dict(monitors.OBS.calls)
     return b.result()
